@@ -87,6 +87,8 @@ func (x *Exec) explore(entry *ssa.Function, initial []workItem) {
 		x.events = x.events[:0]
 		x.files, x.fs, x.fileSeq, x.waitResult, x.pipeOutput, x.pipeWriteFails = nil, nil, 0, nil, nil, false
 		x.rangeSite, x.rangeCount = -1, 0
+		x.reBad = nil
+		x.clock = 0
 		x.frames = x.frames[:0]
 		x.owned = true
 		x.pathFlagged = false
